@@ -6,11 +6,17 @@
     strict_shl strict_shr   (value, or `P` when `s ≥ BITS`; same in both build modes)
   and `shl cfg dbg a s`, `shr cfg dbg a s` with `dbg` ∈ {`dbg`,`1`} (debug_assertions) or
   {`rel`,`0`} (release); answer `P` on panic.
+  `unchecked_shl cfg a s`, `unchecked_shr cfg a s` (`unsafe`; only ever requested with `s < BITS`; for
+  `s ≥ BITS` the Rust is undefined behaviour and model and spec both answer `UB`, the harness refuses).
+  Operator entry points for a `u32` amount, `op cfg dbg|rel a s`:
+    shl_op  `a << s`   shr_op  `a >> s`   shl_assign  `a <<= s`   shr_assign  `a >>= s`
+  (same answers as `shl` / `shr`: `P` under debug_assertions when `s ≥ BITS`).
   Where the property leaves the value open (wrapping/overflowing shift with `s ≥ BITS` at a width that
   is not a power of two) the spec answer has `*` in the value position: `*`, `(*,true)`.
 -/
 import Bnum.Drive.Util
 import Bnum.Model.Shift
+import Bnum.Model.C05Extra
 import Bnum.Spec.Shift
 namespace Bnum.Drive.C05
 open Bnum Bnum.Drive
@@ -39,6 +45,13 @@ def handle : Handler := fun c op args =>
   let mStShr (a s) := if sg then II.strictShr w a s else UI.strictShr w a s
   let mShl (d a s) := if sg then II.shl d w a s else UI.shl d w a s
   let mShr (d a s) := if sg then II.shr d w a s else UI.shr d w a s
+  let mUcShl (a s) := if sg then II.uncheckedShl w a s else UI.uncheckedShl w a s
+  let mUcShr (a s) := if sg then II.uncheckedShr w a s else UI.uncheckedShr w a s
+  let mShlOp (d a s) := if sg then II.shlExp d w a s else UI.shlExp d w a s
+  let mShrOp (d a s) := if sg then II.shrExp d w a s else UI.shrExp d w a s
+  let mShlAs (d a s) := if sg then II.shlAssignExp d w a s else UI.shlAssignExp d w a s
+  let mShrAs (d a s) := if sg then II.shrAssignExp d w a s else UI.shrAssignExp d w a s
+  let showUb (r : Option (List Nat)) : String := match r with | some x => showVal c x | none => "UB"
   -- spec: exact value of the operand, and the value of the shifted result (if determined)
   let spShl (a : List Nat) (s : Nat) : Option Nat :=
     (Spec.Shift.effAmount bits s).map (Spec.Shift.shlVal bits (valOf c a))
@@ -93,6 +106,30 @@ def handle : Handler := fun c op args =>
   | "shr", [d, a, s] => do
     let d ← parseDbg d; let a ← parseVal c a; let s ← parseAmt s
     some (showOut (showVal c) (mShr d a s),
+      if d && ovf s then "P" else hexOr (spShr a s))
+  | "unchecked_shl", [a, s] => do
+    let a ← parseVal c a; let s ← parseAmt s
+    some (showUb (mUcShl a s),
+      if ovf s then "UB" else toHex (Spec.Shift.shlVal bits (valOf c a) s))
+  | "unchecked_shr", [a, s] => do
+    let a ← parseVal c a; let s ← parseAmt s
+    some (showUb (mUcShr a s),
+      if ovf s then "UB" else toHex (Spec.Shift.shrVal bits (valOf c a) s))
+  | "shl_op", [d, a, s] => do
+    let d ← parseDbg d; let a ← parseVal c a; let s ← parseAmt s
+    some (showOut (showVal c) (mShlOp d a s),
+      if d && ovf s then "P" else hexOr (spShl a s))
+  | "shr_op", [d, a, s] => do
+    let d ← parseDbg d; let a ← parseVal c a; let s ← parseAmt s
+    some (showOut (showVal c) (mShrOp d a s),
+      if d && ovf s then "P" else hexOr (spShr a s))
+  | "shl_assign", [d, a, s] => do
+    let d ← parseDbg d; let a ← parseVal c a; let s ← parseAmt s
+    some (showOut (showVal c) (mShlAs d a s),
+      if d && ovf s then "P" else hexOr (spShl a s))
+  | "shr_assign", [d, a, s] => do
+    let d ← parseDbg d; let a ← parseVal c a; let s ← parseAmt s
+    some (showOut (showVal c) (mShrAs d a s),
       if d && ovf s then "P" else hexOr (spShr a s))
   | _, _ => none
 
